@@ -14,6 +14,7 @@
 package conn
 
 import (
+	"encoding/binary"
 	"errors"
 	"fmt"
 	"net"
@@ -45,14 +46,32 @@ func (rb RemoteBitfields) marshalBinary() (map[string][]byte, error) {
 	return rbBytes, nil
 }
 
+// unmarshalBitfield decodes a bitfield sent by a remote peer. The encoding starts
+// with the number of bits (8 bytes, big endian), which bitset.UnmarshalBinary
+// allocates before it reads the words: only accept a header which the bytes that
+// actually follow can back.
+func unmarshalBitfield(b []byte) (*bitset.BitSet, error) {
+	if len(b) < 8 {
+		return nil, errors.New("bitfield too short")
+	}
+	if n := binary.BigEndian.Uint64(b); n > uint64(len(b)-8)*8 {
+		return nil, fmt.Errorf("bitfield claims %d bits but carries %d bytes", n, len(b)-8)
+	}
+	bitfield := bitset.New(0)
+	if err := bitfield.UnmarshalBinary(b); err != nil {
+		return nil, err
+	}
+	return bitfield, nil
+}
+
 func (rb RemoteBitfields) unmarshalBinary(rbBytes map[string][]byte) error {
 	for peerIDStr, bitfieldBytes := range rbBytes {
 		peerID, err := core.NewPeerID(peerIDStr)
 		if err != nil {
 			return fmt.Errorf("peer id: %s", err)
 		}
-		bitfield := bitset.New(0)
-		if err := bitfield.UnmarshalBinary(bitfieldBytes); err != nil {
+		bitfield, err := unmarshalBitfield(bitfieldBytes)
+		if err != nil {
 			return err
 		}
 		rb[peerID] = bitfield
@@ -114,9 +133,9 @@ func handshakeFromP2PMessage(m *p2p.Message) (*handshake, error) {
 	if err != nil {
 		return nil, fmt.Errorf("name: %s", err)
 	}
-	bitfield := bitset.New(0)
-	if err := bitfield.UnmarshalBinary(bitfieldMsg.BitfieldBytes); err != nil {
-		return nil, err
+	bitfield, err := unmarshalBitfield(bitfieldMsg.BitfieldBytes)
+	if err != nil {
+		return nil, fmt.Errorf("bitfield: %s", err)
 	}
 	remoteBitfields := make(RemoteBitfields)
 	if err := remoteBitfields.unmarshalBinary(bitfieldMsg.RemoteBitfieldBytes); err != nil {
